@@ -9,7 +9,7 @@
    assemble out g B            rbasex.py:238-253 applied to the array B of _image
    recon Rops sqrtR cache out g c
                                the returned image for profiles c, given the state
-                               of the module cache _ibs (None = fresh) *)
+                               of the module cache (_ibs_prm, _ibs) (None = fresh) *)
 From Coq Require Import List Arith Bool ZArith Reals QArith.
 From PA Require Import base.Arr base.Px base.MatL model.DistrGeom model.DistrFit model.RbasexOut
   model.DistrQ proofs.VmiInvProofs proofs.DistrFitProofs proofs.RbasexProofs proofs.RbasexSynth.
@@ -119,16 +119,15 @@ Theorem C16_invalid_radii_zero : forall valid (M : list (list R)) (p : list R) r
 Proof. exact invalid_radii_zero. Qed.
 Print Assumptions C16_invalid_radii_zero.
 
-(* RECORDED FINDING: the image-basis cache _ibs is not keyed by the output
-   geometry.  With the same image parameters, out='same' followed by out='full'
-   returns an array of a different shape than out='full' with a fresh cache. *)
-Theorem C16_ibs_stale_refuted :
-  exists (g : geom) (c : list (list Q)) (cache : option ibs),
-    cache = Some (get_image_bs None g (out_dims OSame g)) /\
-    shape_eqb (shape_of (recon Qops sqrt_sign cache OFull g c))
-              (shape_of (recon Qops sqrt_sign None OFull g c)) = false.
-Proof. exact ibs_stale_refuted. Qed.
-Print Assumptions C16_ibs_stale_refuted.
+(* History independence (was the recorded finding C16-ibs, fixed in /repo by
+   5c177c1: the image-basis cache is keyed by [height, width, row]): after any
+   sequence of earlier calls with the same image parameters and any out values,
+   without cache clean-up, the returned image is the one a fresh cache gives. *)
+Theorem C16_ibs_history_independent :
+  forall (g : geom) (history : list outv) (out : outv) (c : list (list R)),
+  recon Rops sqrtR (cache_after_history g history) out g c = recon Rops sqrtR None out g c.
+Proof. exact (ibs_history_independent R Rops sqrtR). Qed.
+Print Assumptions C16_ibs_history_independent.
 
 Example C16_hypotheses_satisfiable :
   base_wf R 5 5 2 2 1 1 false OFull [[1; 2]; [3; 4]]%R /\ (2 < 5)%nat.
